@@ -178,7 +178,7 @@ def main():
                    for c in (o.get("ceremonies") or [])]
     R.coverage["input_distribution"] = {"ceremonies": dist, "validators_checked_in_coq": len(rows), "go_checks": checks,
                                         "full_dkg_run_scenarios_this_run": ran,
-                                        "full_dkg_run_note": "quick runs ONE append scenario (plain ceremony + add-validators, artefacts of both checked), rotating frost / pedersen / default by seed, plus one plain ceremony of the other algorithm with a LOW threshold (n=4 t=2 / n=5 t=3 / n=5 t=2, rotating) and NoVerify=true; thorough runs frost and pedersen plain ceremonies, two append scenarios, the lossy scenarios and all low-threshold configurations with NoVerify true and false"}
+                                        "full_dkg_run_note": "quick runs ONE append scenario (plain ceremony + add-validators, artefacts of both checked), rotating frost / pedersen / default by seed, plus one plain FROST ceremony with a LOW threshold (n=4 t=2 / n=5 t=3 / n=5 t=2, rotating) and NoVerify=true, and one such pedersen ceremony when the append scenario is not pedersen; thorough runs frost and pedersen plain ceremonies, two append scenarios, the lossy scenarios and all low-threshold configurations with NoVerify true and false"}
     samples = []
     for cls, o in runs:
         for c in (o.get("ceremonies") or []):
